@@ -129,7 +129,26 @@ fn case_t<T: Sc>(rng: &mut Rng, case: u64, out: &mut CaseOut) {
         out.inconcl("normal matrix not numerically positive definite (value oracles skipped; sign/range/slicing still checked)");
         return;
     }
-    let sigma2 = sf.stats.reduced_chi2().w();
+    // sigma^2 from the oracle's own residual (independent of reduced_chi2() and weighted_residuals());
+    // only where that residual is not dominated by rounding - otherwise the library's value is used
+    let lib_sigma2 = sf.stats.reduced_chi2().w();
+    let mut sigma2_rel = 0.0;
+    let sigma2 = match oracle_sigma2::<T>(&spec, &sf.alpha, &sf.c, sf.nu) {
+        Some((s2, rel)) => {
+            sigma2_rel = rel;
+            out.count("sigma2_from_the_oracle_residual");
+            out.ratio("reduced_chi2_vs_oracle_sigma2", ((lib_sigma2 - s2) / s2).abs() / rel);
+            if !(((lib_sigma2 - s2) / s2).abs() <= rel) {
+                violation(out, stream, case, format!("the sigma^2 reported as reduced_chi2 ({lib_sigma2:e}) is not |W(y - Phi(alpha^)c^)|^2/(N-M-P) = {s2:e} (relative tolerance {rel:.2e}) [{class}]"), detail(json!({"oracle_sigma2": s2})));
+                return;
+            }
+            s2
+        }
+        None => {
+            out.count("sigma2_taken_from_the_library (residual dominated by rounding)");
+            lib_sigma2
+        }
+    };
     // column-equilibrated form of Cov·(H^T H) = sigma^2 I:  (D Cov D)·G = sigma^2 I
     let cov_s = Mat::from_fn(k, k, |i, j| d[i] * cov.at(i, j) * d[j]);
     if !cov_s.all_finite() || !(sigma2.is_finite()) {
@@ -144,7 +163,8 @@ fn case_t<T: Sc>(rng: &mut Rng, case: u64, out: &mut CaseOut) {
             worst = worst.max((prod.at(i, j) - want).abs());
         }
     }
-    let tol = TAU_COV * T::EPS * kappa * sigma2.max(f64::MIN_POSITIVE) * (k as f64);
+    // the oracle's sigma^2 is itself only known to the relative accuracy `sigma2_rel`
+    let tol = (TAU_COV * T::EPS * kappa * (k as f64) + sigma2_rel) * sigma2.max(f64::MIN_POSITIVE);
     out.count("value_oracle_evaluated");
     out.ratio("cov_times_normal_matrix", worst / tol.max(f64::MIN_POSITIVE));
     if sigma2 > 0.0 && worst > tol {
